@@ -1,6 +1,8 @@
 import CfbVerif.Phys.Mini
 import CfbVerif.Phys.Api
 import CfbVerif.Phys.MiniInv
+import CfbVerif.Phys.NoPanic
+import CfbVerif.Phys.Load
 /-!
 # C11 — mutating any file the library agreed to open never panics or hangs
 
@@ -27,6 +29,17 @@ Proved here, for *arbitrary* tables (no consistency assumed beyond the stated ra
   (the pruning step), and `C11_popFreeMini_no_panic`: with in-range indices the pop loop of
   `allocate_mini_sector` has no panic exit — together: the index `minifat[free_idx]` is in range in
   every state reached from one where it was;
+* **`C11_store_ops_never_panic`** (`Phys/NoPanic.lean`, 1 500 lines): from *any* state in which the two
+  free lists lie inside their tables — nothing else is assumed: chains may be cut, cyclic, shared
+  between owners or run into free space, lengths may contradict chains — every operation of the
+  store machine (`allocate_dir_entry`'s chain growth, `write_data_to_stream`, `resize_stream`,
+  `remove_stream`'s release, `open`'s cache rebuild, with any arguments) returns a value or an
+  error, never one of the model's panic exits, and the two conditions hold again afterwards
+  (`C11_history_keeps_ranges`: after any history); `C11_open_establishes_ranges`: the caches `open`
+  builds satisfy them for whatever tables it read, in particular for every accepted file the
+  two-level model can be loaded from (`C11_loaded_state_in_range`).  This is the composition over
+  the whole write path that the primitive lemmas above lacked — for the panic exits; the `hang`
+  exits (fuel) are not covered, nor is the directory level.
 * `C11_mini_pop_safe_reachable`, `C11_reuse_safe_reachable`: both range conditions hold in *every*
   state the API model reaches from a fresh file (`miniRange_reachable`, `inv_reachable`: induction
   over all histories), so on well-formed files these two unchecked indexings can never fail.
@@ -205,5 +218,51 @@ theorem C11_reuse_safe_reachable (v4 : Bool) (maxBuf : Nat) (ops : List CfbVerif
 /-- non-vacuity: a two-cycle is refused by the walk, so the hypothesis of
 `C11_walk_then_extend_terminates` excludes exactly the input on which the loop would spin -/
 example : (match chainFrom #[1, 0] 0 with | .err .invalidData => true | _ => false) = true := by decide
+
+/-! ## every store operation on arbitrary tables -/
+
+/-- **no operation of the store machine panics, from any state whose free lists lie inside their
+tables, with any arguments; and the state it leaves satisfies the same two conditions** -/
+theorem C11_store_ops_never_panic (g : G) (op : GOp) (w : WK g.p) :
+    (∀ s, gstep g op ≠ .panic s) ∧ ∀ g', gstep g op = .ok g' → WK g'.p :=
+  np_gstep g op w
+
+/-- … after any history of store operations (a failed one leaves the state) -/
+theorem C11_history_keeps_ranges (g : G) (ops : List GOp) (w : WK g.p) : WK (grun g ops).p :=
+  wk_grun ops g w
+
+/-- **`open` establishes the two conditions on whatever tables it read**: it builds both lists from
+the FREE cells of the FAT and the MiniFAT -/
+theorem C11_open_establishes_ranges (p : P) (hf : p.free = indicesOf p.fat FREE)
+    (hm : p.freeMini = indicesOf p.miniFat FREE) : WK p :=
+  wk_of_indices p hf hm
+
+/-- in particular every accepted image the two-level model can be loaded from starts in range -/
+theorem C11_loaded_state_in_range (img : Raw.Img) (maxBuf : Nat) (ps : PState)
+    (h : ofImage img maxBuf = some ps) : WK ps.p := by
+  unfold ofImage at h
+  split at h
+  · split at h
+    · cases h
+    · split at h
+      · cases h
+      · dsimp only at h
+        split at h
+        · cases h
+        · cases h
+          exact wk_of_indices _ rfl rfl
+  · cases h
+
+/-- the premise is met by a damaged state — the MiniFAT chain cut under the in-memory MiniFAT (F20) —
+and the operation that used to trip the assertion is answered with an error -/
+example : WK cutMiniFat :=
+  ⟨fun i hi => (by simp [cutMiniFat, Phys.create] at hi), fun i hi => (by simp [cutMiniFat, Phys.create] at hi)⟩
+set_option maxRecDepth 20000 in
+example : (match allocateMiniSector cutMiniFat END with | .err .invalidData => true | _ => false) = true := by decide
+
+/-- the premise is not cosmetic: with a free-list entry beyond the FAT the reuse branch of
+`allocate_sector` does reach the model's panic exit -/
+example : (match allocateSector { (Phys.create false) with free := [7] } .zero with | .panic _ => true | _ => false) = true := by
+  decide
 
 end CfbVerif.Props.C11
